@@ -179,6 +179,11 @@ BENIGN = [
         ["C10", "C13", "C15", "C19"],
     ),
     (
+        "retry-failed-reads",
+        [("ceos_alos2/array.py", "    f.seek(offset)\n\n    return f.read(size)", "    for attempt in range(3):\n        try:\n            f.seek(offset)\n            return f.read(size)\n        except OSError:\n            if attempt == 2:\n                raise")],
+        ["C02", "C01", "C11", "C18"],
+    ),
+    (
         "mapper-getitem-missing-summary",
         [("ceos_alos2/summary.py", "        raise OSError(\n", "        raise FileNotFoundError(\n")],
         ["C18"],
